@@ -119,7 +119,8 @@ pub(crate) struct TranslatorState {
     function_name_arena: IdSet<String>,
     instr_count: usize,
     func_map: HashMap<FuncDesc, Label>,
-    funcs_to_generate: Vec<FuncDesc>,
+    // with the file and line where the function was first asked for
+    funcs_to_generate: Vec<(FuncDesc, u32, usize)>,
     loop_stack: Vec<EnclosingLoop>,
     return_stack: Vec<u32>,
     // counts that do not fit the operand that has to hold them
@@ -446,8 +447,31 @@ impl Translator {
                 // Generate bytecode for function bodies
                 let mut iteration = Vec::new();
                 mem::swap(&mut (iteration), &mut st.funcs_to_generate);
-                for desc in iteration {
+                for (desc, first_use_file, first_use_lineno) in iteration {
                     self.update_curr_function(st, &desc.unqualified_name());
+                    // The code of a function is attributed to the function's own source, never to
+                    // whatever was translated last. A wrapper has no body in the source: a runtime
+                    // error in it is reported at the declaration it wraps, or where there is none
+                    // (an intrinsic, `channel`) at the place that made the function value.
+                    let origin = match &desc.kind {
+                        FuncKind::NamedFunc(f) => Some(f.name.node()),
+                        FuncKind::AnonymousFunc { lambda, .. } => Some(lambda.node()),
+                        FuncKind::TaskBlock { task_block, .. } => Some(task_block.node()),
+                        FuncKind::IntrinsicWrapper(_, func_node) => Some(func_node.clone()),
+                        FuncKind::ForeignFunctionWrapper { func_decl, .. }
+                        | FuncKind::HostFunctionWrapper(func_decl) => Some(func_decl.name.node()),
+                        FuncKind::ConstructorWrapper(Some(struct_def)) => {
+                            Some(struct_def.name.node())
+                        }
+                        FuncKind::ConstructorWrapper(None) => None,
+                    };
+                    match origin {
+                        Some(node) => self.update_current_file_and_lineno(st, node),
+                        None => {
+                            st.curr_file = first_use_file;
+                            st.curr_lineno = first_use_lineno;
+                        }
+                    }
 
                     let label = st.func_map.get(&desc).unwrap();
                     self.emit(st, Line::Label(label.clone()));
@@ -2955,7 +2979,8 @@ impl Translator {
         match entry {
             std::collections::hash_map::Entry::Occupied(o) => o.get().clone(),
             std::collections::hash_map::Entry::Vacant(v) => {
-                st.funcs_to_generate.push(desc.clone());
+                st.funcs_to_generate
+                    .push((desc.clone(), st.curr_file, st.curr_lineno));
                 // a lambda or task in a generic function is generated once per instantiation of
                 // what it captures, even if its own type does not mention a type parameter
                 let captures_overloaded = matches!(
